@@ -191,6 +191,7 @@ func (p *HTTPProxy) ServeHTTP(w http.ResponseWriter, r *http.Request) {
 
 	// rewrite the Host header only after the forwarding headers have
 	// been derived from the host the client asked for
+	clientHost := r.Host
 	if t.Host == "dst" {
 		r.Host = targetURL.Host
 	} else if t.Host != "" {
@@ -261,10 +262,18 @@ func (p *HTTPProxy) ServeHTTP(w http.ResponseWriter, r *http.Request) {
 
 	// write access log
 	if p.Logger != nil {
+		// log the host the client asked for and not the one the
+		// 'host' option of the route has put in its place
+		logReq := r
+		if r.Host != clientHost {
+			logReq = new(http.Request)
+			*logReq = *r
+			logReq.Host = clientHost
+		}
 		p.Logger.Log(&logger.Event{
 			Start:   start,
 			End:     end,
-			Request: r,
+			Request: logReq,
 			Response: &http.Response{
 				StatusCode:    rw.code,
 				ContentLength: int64(rw.size),
